@@ -63,6 +63,10 @@ func (r *body) Read(b []byte) (int, error) {
 	if err := r.checkContentLengthViolation(); err != nil {
 		return n, err
 	}
+	if err == io.EOF && r.hasContentLength && r.remainingContentLength > 0 {
+		// the stream ended before the declared Content-Length was reached
+		err = io.ErrUnexpectedEOF
+	}
 	return n, maybeReplaceError(err)
 }
 
